@@ -122,10 +122,15 @@ def run(P, R):
             if isinstance(n, ast.Attribute) and isinstance(n.ctx, ast.Store) and n.attr == 'identifier':
                 ty = P.env(u, u.cls).typeof(n.value)
                 if ty and ty[0] == 'inst' and PC in P.mro(ty[1]):
-                    ok = u.qual in ('ProcessCommand.__init__', 'ProcessCommand.update_identifier')
+                    # (withdrawing a target - storing None - can only prevent a request: start() needs a truthy one)
+                    stores = [a for a in own_nodes(u.node) if isinstance(a, ast.Assign) and any(t is n for t in a.targets)]
+                    withdrawn = bool(stores) and all(isinstance(a.value, ast.Constant) and a.value.value is None
+                                                     for a in stores)
+                    ok = u.qual in ('ProcessCommand.__init__', 'ProcessCommand.update_identifier') or withdrawn
                     R.check(r1, ok, '%s writes the command identifier' % u.qual, 'identifier-writer|%s' % u.qual,
                             u.loc(n), '%s writes ProcessCommand.identifier directly (only __init__ and '
-                            'update_identifier may)' % u.qual)
+                            'update_identifier may give a command a target)' % u.qual)
+    shared.preassigned_target_withdrawn(P, R, r1)
     for u, c in who_calls(P, 'update_identifier'):
         if u.mod.short != 'commander' or isinstance(c.func.value, ast.Call):       # super().update_identifier
             continue
